@@ -407,9 +407,9 @@ class C16(Check):
                 'path': 12 if q else 200,
                 'sdss': 12 if q else 200,
                 'allfibres': 12 if q else 160,
-                'shared_grid': 12 if q else 240,
-                'reuse': 28 if q else 420,
-                'twin': 8 if q else 160,
+                'shared_grid': 12 if q else 160,
+                'reuse': 28 if q else 280,
+                'twin': 8 if q else 100,
                 'append': 1500 if q else 30000,
                 'append_chain': 300 if q else 6000}
 
